@@ -16,7 +16,7 @@
 (* two anchor names that generate the same key (the winner depends on set  *)
 (* iteration order).  Modelled(gs, env, n) is FALSE there.                 *)
 (***************************************************************************)
-EXTENDS GlyphSet
+EXTENDS GlyphSet, TLC
 
 Cps(env, s) == IF s \in DOMAIN env.cps THEN env.cps[s] ELSE <<>>
 IsPrefixName(env, p, s) == LET a == Cps(env, p)  b == Cps(env, s) IN Len(a) <= Len(b) /\ SubSeq(b, 1, Len(a)) = a
@@ -61,8 +61,8 @@ Prop(gs, env, n) ==
   IF EarlyReturn(gs, env, n) THEN [anchors |-> own, ok |-> TRUE]
   ELSE
   LET K == {k \in 1..Len(g.comps) : g.comps[k].b \in DOMAIN gs}
-      BP == [k \in K |-> Prop(gs, env, g.comps[k].b)]
-      BA == [k \in K |-> BP[k].anchors]
+      BP == TLCEval([k \in K |-> Prop(gs, env, g.comps[k].b)])     \* (forced: a lazily evaluated function would recompute Prop at every use)
+      BA == TLCEval([k \in K |-> BP[k].anchors])
       IsMarkComp(k) == \E j \in 1..Len(BA[k]) : LeadingUnderscore(env, BA[k][j].n)
       marks0 == {k \in K : IsMarkComp(k)}
       bases0 == K \ marks0
@@ -110,7 +110,8 @@ Processed(gs, env, inc) == UNION {Proc(gs, env, n) : n \in {n \in inc \cap DOMAI
 NXY(anchors) == [k \in 1..Len(anchors) |-> [n |-> anchors[k].n, x |-> anchors[k].x, y |-> anchors[k].y]]
 PropagateModelled(gs, env, inc) == ~Cyclic(gs) /\ \A n \in Processed(gs, env, inc) : Prop(gs, env, n).ok
 PropagateModelAnchors(gs, env, inc) ==
-  [n \in DOMAIN gs |-> IF n \in Processed(gs, env, inc) THEN Prop(gs, env, n).anchors ELSE NXY(gs[n].anchors)]
+  LET P == Processed(gs, env, inc) IN
+  TLCEval([n \in DOMAIN gs |-> IF n \in P THEN Prop(gs, env, n).anchors ELSE NXY(gs[n].anchors)])
 PropagateModelModified(gs, env, inc) ==
   {n \in Processed(gs, env, inc) : Len(Prop(gs, env, n).anchors) > Len(gs[n].anchors)}
 
